@@ -82,3 +82,47 @@ pub fn c15(data: &[u8]) {
         std::process::abort();
     }
 }
+
+static SEEN_C07: OnceLock<Mutex<BTreeSet<u64>>> = OnceLock::new();
+
+/// C07: the three renderings of the decoded schema must generate the same tokens (or fail alike).
+pub fn c07(data: &[u8]) {
+    init();
+    if POISONED.load(std::sync::atomic::Ordering::SeqCst) {
+        return;
+    }
+    let Some(case) = crate::props::c07::fuzz_decode(data) else { return };
+    // the library caches every schema by path for the life of the process: bound the number of distinct files
+    let h = crate::tape::fnv(case.renderings[0].2.as_bytes()) ^ crate::tape::fnv(case.renderings[1].2.as_bytes()).rotate_left(17) ^ crate::tape::fnv(case.renderings[2].2.as_bytes()).rotate_left(31);
+    let seen = SEEN_C07.get_or_init(|| Mutex::new(BTreeSet::new()));
+    {
+        let mut s = seen.lock().unwrap();
+        if !s.contains(&h) {
+            if s.len() >= 4_000 {
+                return;
+            }
+            s.insert(h);
+        }
+    }
+    let dir = crate::work_dir().join("fuzz-scratch").join(format!("c07-{}", std::process::id()));
+    let _ = std::fs::create_dir_all(&dir);
+    let mut outs = Vec::new();
+    for (i, (_, ext, text)) in case.renderings.iter().enumerate() {
+        let p = dir.join(format!("s{:016x}_{}.{}", h, i, ext));
+        if !p.exists() {
+            let _ = std::fs::write(&p, text);
+        }
+        let o = run_job_here(&Job { schema_path: p.to_string_lossy().into(), query: QuerySrc::Text(case.document.clone()), opts: Opts::default(), cwd: None });
+        if let Outcome::Panic(m) = &o {
+            if m.contains("poisoned") {
+                POISONED.store(true, std::sync::atomic::Ordering::SeqCst);
+                return;
+            }
+        }
+        outs.push(o);
+    }
+    if let Some(what) = crate::props::c07::fuzz_judge(&outs, &case) {
+        eprintln!("C07 violation: {}", what.chars().take(600).collect::<String>());
+        std::process::abort();
+    }
+}
